@@ -109,9 +109,13 @@ func (g *Generator) getAllConstructors() (structs, enums []goifiedName) {
 		structs = append(structs, goify(method.Name+"Params", true))
 	}
 
-	for _, items := range g.schema.Enums {
+	for typeName, items := range g.schema.Enums {
 		for _, enum := range items {
-			enums = append(enums, goify(enum.Name, true))
+			name := goify(enum.Name, true)
+			if name == goify(typeName, true) {
+				name += "Obj"
+			}
+			enums = append(enums, name)
 		}
 	}
 
